@@ -1,9 +1,10 @@
 #!/bin/bash
-# Builds the analyser from files on disk only (offline).
+# Builds the analyser and the reference parser generator from files on disk only (offline).
 set -e
 cd "$(dirname "$0")"
 export PATH=/opt/veriftools/go1.26.8/bin:$PATH GOTOOLCHAIN=local GOFLAGS=-mod=mod GOPROXY=off GOSUMDB=off
 unset GOWORK
 mkdir -p bin evidence
 (cd checker && go build -o ../bin/specvet .)
-echo "specvet built: $(./bin/specvet -list | wc -l) rules"
+(cd goyacc && go build -o ../bin/goyacc golang.org/x/tools/cmd/goyacc)
+echo "specvet built: $(./bin/specvet -list | wc -l) rules; goyacc built"
